@@ -192,6 +192,18 @@ func genF32(r *rand.Rand) float32 {
 	}
 }
 
+// emptyLocs returns e with every location column set to the empty string (the zero value of the column's Go type).
+func emptyLocs(e any) any {
+	v := reflect.New(reflect.TypeOf(e)).Elem()
+	v.Set(reflect.ValueOf(e))
+	for i := 0; i < v.NumField(); i++ {
+		if isLoc(v.Type().Field(i)) {
+			v.Field(i).SetString("")
+		}
+	}
+	return v.Interface()
+}
+
 type genOpts struct {
 	rich    bool // very long strings
 	above63 bool // uint/uint64 values >= 2^63
@@ -406,6 +418,11 @@ func judge(file string, tables []tableSpec, inserted map[string][]any) (v verdic
 			}
 		}
 	}
+	// the reader resolves ids to strings (and resolves an id that is not in the dictionary to ""), so the dictionary is
+	// also looked at directly
+	if v.LocProblem == "" && hasLoc {
+		v.LocProblem = inspectLocations(file, tables, inserted)
+	}
 	sort.Slice(v.Missing, func(i, j int) bool { return v.Missing[i] < v.Missing[j] })
 	sort.Slice(v.Duplicated, func(i, j int) bool { return v.Duplicated[i] < v.Duplicated[j] })
 	switch {
@@ -427,14 +444,131 @@ func judge(file string, tables []tableSpec, inserted map[string][]any) (v verdic
 	return v
 }
 
+// rawDB opens the closed recorder's file for direct SQL (one connection per file, shared by the inspections of one run;
+// the drivers run their cases one after the other).
+var rawCache struct {
+	file string
+	db   *sql.DB
+}
+
+func rawDB(file string) (*sql.DB, error) {
+	if rawCache.file == file && rawCache.db != nil {
+		return rawCache.db, nil
+	}
+	closeRaw()
+	db, err := sql.Open("sqlite", file)
+	if err != nil {
+		return nil, err
+	}
+	rawCache.file, rawCache.db = file, db
+	return db, nil
+}
+
+func closeRaw() {
+	if rawCache.db != nil {
+		_ = rawCache.db.Close()
+	}
+	rawCache.file, rawCache.db = "", nil
+}
+
+// inspectLocations reads the SQLite file without the DataReader: the location table maps ids to strings one-to-one
+// (no id twice, no string twice, no id below 1), and every location id stored in a row of a data table is in the
+// location table and names the string the entry was inserted with. It returns the first problem, or "".
+func inspectLocations(file string, tables []tableSpec, inserted map[string][]any) string {
+	db, err := rawDB(file)
+	if err != nil {
+		return "cannot open the database: " + err.Error()
+	}
+	dict := map[int64]string{}
+	ids := map[string]int64{}
+	rs, err := db.Query("SELECT ID, Locale FROM location ORDER BY rowid")
+	if err != nil {
+		return "cannot read the location table: " + err.Error()
+	}
+	for rs.Next() {
+		var id sql.NullInt64
+		var str sql.NullString
+		if err := rs.Scan(&id, &str); err != nil {
+			rs.Close()
+			return "location row: " + err.Error()
+		}
+		switch {
+		case !id.Valid || !str.Valid:
+			rs.Close()
+			return "location row with NULL"
+		case id.Int64 < 1:
+			rs.Close()
+			return fmt.Sprintf("location id %d (ids start at 1)", id.Int64)
+		}
+		if old, dup := dict[id.Int64]; dup {
+			rs.Close()
+			return fmt.Sprintf("location id %d stands for %q and %q", id.Int64, short(old), short(str.String))
+		}
+		if old, dup := ids[str.String]; dup {
+			rs.Close()
+			return fmt.Sprintf("location string %q has ids %d and %d", short(str.String), old, id.Int64)
+		}
+		dict[id.Int64], ids[str.String] = str.String, id.Int64
+	}
+	rs.Close()
+	for _, t := range tables {
+		typ := reflect.TypeOf(shapes[t.Shape])
+		var cols []string
+		for i := 0; i < typ.NumField(); i++ {
+			if isLoc(typ.Field(i)) {
+				cols = append(cols, typ.Field(i).Name)
+			}
+		}
+		if len(cols) == 0 {
+			continue
+		}
+		want := map[int64][]string{}
+		for _, e := range inserted[t.Name] {
+			want[idOf(e)] = locsOf(e)
+		}
+		rs, err := db.Query("SELECT ID, " + strings.Join(cols, ", ") + " FROM " + t.Name + " ORDER BY rowid")
+		if err != nil {
+			return "cannot read " + t.Name + ": " + err.Error()
+		}
+		for rs.Next() {
+			var id int64
+			lids := make([]sql.NullInt64, len(cols))
+			dst := []any{&id}
+			for i := range lids {
+				dst = append(dst, &lids[i])
+			}
+			if err := rs.Scan(dst...); err != nil {
+				rs.Close()
+				return fmt.Sprintf("%s: location column is not an integer id: %v", t.Name, err)
+			}
+			for i, l := range lids {
+				str, ok := dict[l.Int64]
+				switch {
+				case !l.Valid:
+					rs.Close()
+					return fmt.Sprintf("%s id %d: column %s is NULL", t.Name, id, cols[i])
+				case !ok:
+					rs.Close()
+					return fmt.Sprintf("%s id %d: column %s holds location id %d, which is not in the location table (dangling)", t.Name, id, cols[i], l.Int64)
+				}
+				if w, known := want[id]; known && i < len(w) && w[i] != str {
+					rs.Close()
+					return fmt.Sprintf("%s id %d: column %s holds location id %d = %q, inserted with %q", t.Name, id, cols[i], l.Int64, short(str), short(w[i]))
+				}
+			}
+		}
+		rs.Close()
+	}
+	return ""
+}
+
 // rawRows reads <<id, location id>> per table and the location table in rowid order
 // straight from SQLite (the reader replaces the id by the string).
 func rawRows(file string, tables []tableSpec) (rows map[string][][2]int64, locs [][2]any, err error) {
-	db, err := sql.Open("sqlite", file)
+	db, err := rawDB(file)
 	if err != nil {
 		return nil, nil, err
 	}
-	defer db.Close()
 	rows = map[string][][2]int64{}
 	anyLoc := false
 	for _, t := range tables {
